@@ -231,4 +231,15 @@ def finalEnv (I : Interp V) (p : Prog) (x : Fin p.nin → V) : List V :=
 def run (I : Interp V) (p : Prog) (x : Fin p.nin → V) : Fin p.outs.length → V :=
   fun j => valOf (finalEnv I p x) (p.outs.get j)
 
+/-! ### Row-finite sparse matrices over an operand list (the concrete array family, `Proofs/JaxprArray.lean`)
+
+  `applyDescG T xs i = Σ_{(k, j, c) ∈ T i} c · (operand k) j`.  At `ℂ` this is `Arr.applyDesc`, proved jointly linear
+  for every `T`; at `Float` the driver runs it against the JAX primitives (harness/jaxpr_family.py). -/
+
+/-- one term of a sparse row: (operand number, entry of that operand, coefficient) -/
+abbrev Term (α : Type) := Nat × Nat × α
+
+def applyDescG {α : Type} [Add α] [Mul α] [Zero α] (T : Nat → List (Term α)) (xs : List (Nat → α)) : Nat → α :=
+  fun i => ((T i).map fun t => t.2.2 * (xs.getD t.1 (fun _ => 0)) t.2.1).sum
+
 end Scico.Jaxpr
